@@ -245,6 +245,15 @@ func runC11(e *Engine, g G, o RunOpt) RunInfo {
 					countKnown = true
 				}
 			}
+			// The server's own count of the client's stanzas: a new session starts at zero; a resumed one goes
+			// on from what the server declared in <resumed h/> (what it had not acknowledged before the loss
+			// it treats as never received) plus what it receives on this connection.
+			if conn.Established == "resumed" && ci < len(srv.Scripts) {
+				sessPrev = srv.Scripts[ci].ResumedH
+			} else if conn.Enabled {
+				sessPrev = 0
+				lastAckH = 0
+			}
 			if err != nil {
 				e.Sleep(time.Duration(sc.Client.ConnectTimeout+3) * time.Second)
 				continue
@@ -253,9 +262,6 @@ func runC11(e *Engine, g G, o RunOpt) RunInfo {
 			if c.MidAck && conn.Enabled && err == nil {
 				// the server acknowledges everything it has received on the session so far ...
 				e.Sleep(200 * time.Millisecond)
-				if conn.Established == "bound" {
-					sessPrev = 0
-				}
 				k := sessPrev + clientStanzasOnSession(conn)
 				conn.Send(fmt.Sprintf("<a xmlns='%s' h='%d'/>", nsSM, k))
 				lastAckH = k
@@ -330,12 +336,6 @@ func runC11(e *Engine, g G, o RunOpt) RunInfo {
 				return countState(w.Events, xmpp.StateDisconnected) > nd || (c.EndBy == "stream-error" && countState(w.Events, xmpp.StateStreamError) > nseBefore[ci])
 			})
 			e.Sleep(time.Second)
-			if conn.Enabled {
-				if conn.Established == "bound" {
-					sessPrev = 0
-				}
-				sessPrev += clientStanzasOnSession(conn)
-			}
 			for _, end := range ends {
 				if base+int64(end) <= cli.TotalRead && conn.Enabled {
 					modelCount++
@@ -360,7 +360,12 @@ func clientStanzasOnSession(c *SrvConn) int {
 	n, on := 0, false
 	for _, r := range c.Elements() {
 		el := r.Item.Elem
-		if el.Is(nsSM, "enable") || el.Is(nsSM, "resume") {
+		if el.Is(nsSM, "enable") {
+			// a new stream-managed session: what came before (a refused <resume/>, the bind request) is not part of it
+			n, on = 0, true
+			continue
+		}
+		if el.Is(nsSM, "resume") {
 			on = true
 			continue
 		}
